@@ -131,7 +131,36 @@ pub fn corpus_plans() -> Vec<Plan> {
         ],
         roots: RootSel::Nodes(vec![0]),
     };
-    vec![p1, p2, p3, p4, p5]
+    // features the plans above lack: service classes (the other INST object format), three-row
+    // columns (real interleaving), object-sourced Contents, MaterialColors, a long string
+    let mut mc = rbx_dom_weak::types::MaterialColors::new();
+    mc.set_color(rbx_dom_weak::types::TerrainMaterials::Grass, Color3uint8::new(1, 2, 3));
+    let row = |i: usize, parent: Option<usize>| PNode {
+        class: "ZzRow".into(),
+        name: format!("row{}", i),
+        parent,
+        props: vec![
+            ("I".into(), v(0x0102_0304i32.wrapping_mul(i as i32 + 1))),
+            ("L".into(), v((i as i64 + 1) << 33)),
+            ("F".into(), v(0.1f32 * (i as f32 + 1.0))),
+            ("V2".into(), v(rbx_dom_weak::types::Vector2::new(i as f32, -1.5))),
+            ("Ud".into(), v(UDim::new(0.25 * i as f32, i as i32 - 1))),
+            ("C8".into(), v(Color3uint8::new(i as u8, 128, 255))),
+            ("Obj".into(), PVal::ContentObj(Tgt::Node(2 + (i + 1) % 3))),
+            ("Long".into(), v(Variant::String("long string ".repeat(120 + i)))),
+        ],
+    };
+    let p6 = Plan {
+        nodes: vec![
+            PNode { class: "Workspace".into(), name: "Workspace".into(), parent: None, props: vec![("ZzW".into(), v(1i32))] },
+            PNode { class: "Terrain".into(), name: "Terrain".into(), parent: Some(0), props: vec![("MaterialColors".into(), v(mc))] },
+            row(0, Some(0)),
+            row(1, Some(0)),
+            row(2, Some(3)),
+        ],
+        roots: RootSel::Nodes(vec![0]),
+    };
+    vec![p1, p2, p3, p4, p5, p6]
 }
 
 #[derive(Clone, Copy, Debug, PartialEq, Eq, Serialize, Deserialize, PartialOrd, Ord)]
@@ -165,6 +194,14 @@ pub fn build_corpus() -> Corpus {
                 other => crate::evidence::machinery_failure(&format!("corpus plan {} does not serialize to binary: {:?}", i + 1, other.map(|x| x.map(|b| b.len())))),
             }
         }
+        // rbx_xml cannot write object-sourced Contents (a listed C02 finding): the XML member of
+        // the corpus is the plan without them
+        let mut px = p.clone();
+        for n in px.nodes.iter_mut() {
+            n.props.retain(|(_, v)| !matches!(v, PVal::ContentObj(_)));
+        }
+        let r = px.realise(How::Nested, None);
+        let roots = px.root_refs(&r);
         match crate::codec::xml_encode(&r, &roots, XmlMode::Unknown) {
             Ok(Ok(b)) => files.push(CorpusFile { kind: Kind::Xml, desc: format!("plan{}/xml", i + 1), bytes: b }),
             other => crate::evidence::machinery_failure(&format!("corpus plan {} does not serialize to XML: {:?}", i + 1, other.map(|x| x.map(|b| b.len())))),
